@@ -29,6 +29,10 @@ pub struct Case {
     /// and a second one from the entries the store lists, put into a memory store
     #[serde(default)]
     pub redb: bool,
+    /// the history starts with a full window of remembered headers in the tracker (what a signer
+    /// that has followed the chain for a hundred blocks holds)
+    #[serde(default)]
+    pub full_window: bool,
 }
 
 pub struct C11;
@@ -68,12 +72,12 @@ impl Prop for C11 {
     }
     fn strategy(&self, tier: Tier) -> BoxedStrategy<Case> {
         let n = tier.pick(30usize, 80usize);
-        (prop::bool::weighted(0.3), any::<bool>(), proptest::collection::vec(op_strat(false), 1..n), prop::bool::weighted(0.25), prop::bool::weighted(0.5), prop::bool::weighted(0.2))
-            .prop_map(|(cloud, anchors, ops, backup, wire, redb)| {
+        (prop::bool::weighted(0.3), any::<bool>(), proptest::collection::vec(op_strat(false), 1..n), prop::bool::weighted(0.25), prop::bool::weighted(0.5), prop::bool::weighted(0.2), prop::bool::weighted(0.3))
+            .prop_map(|(cloud, anchors, ops, backup, wire, redb, full_window)| {
                 if redb {
-                    Case { cloud: false, anchors, ops, backup: false, wire_blocks: false, redb: true }
+                    Case { cloud: false, anchors, ops, backup: false, wire_blocks: false, redb: true, full_window }
                 } else {
-                    Case { cloud: cloud && !backup, anchors, ops, backup, wire_blocks: wire && !cloud && !backup, redb: false }
+                    Case { cloud: cloud && !backup, anchors, ops, backup, wire_blocks: wire && !cloud && !backup, redb: false, full_window }
                 }
             })
             .boxed()
@@ -82,6 +86,10 @@ impl Prop for C11 {
         let mut m = Machine::new_mode_store(case.cloud, case.backup, case.anchors, case.wire_blocks, case.redb);
         if case.redb {
             st.class("redb_store_history");
+        }
+        if case.full_window {
+            m.fill_header_window();
+            st.class("full_header_window");
         }
         if m.pw.is_some() {
             st.class("wire_blocks_history");
